@@ -292,4 +292,37 @@ def searchVector (cfg : Cfg) (sp : Space V D) (p : Params) (ix : Index V) (tomb 
     | .ok hits => .ok ((hits.filter (fun h => !tomb.contains h.2)).take k)
   else search cfg sp p ix q k
 
+/-! ### the engine around the index: vectors written, nodes deleted, compaction -/
+
+/-- what reaches the vector index and the tombstone set the engine filters with -/
+inductive EOp (V : Type)
+  /-- `WriteTxn::set_vector(id, v)` → `HnswIndex::insert` with the level drawn for it -/
+  | vec (id level : Nat) (v : V)
+  /-- `tombstone_node(id)` committed: the snapshot's tombstone set gains `id`; the index is not told -/
+  | del (id : Nat)
+  /-- `compact()`: the published runs — the only place tombstones live — are dropped -/
+  | compact
+
+structure EState (V : Type) where
+  ix : Index V
+  /-- distinct tombstoned ids of the current snapshot (`collect_tombstoned_nodes`) -/
+  tomb : List Nat
+
+def EState.init {V : Type} : EState V := ⟨Index.empty, []⟩
+
+def estep (sp : Space V D) (p : Params) (st : EState V) : EOp V → Except Err (EState V)
+  | .vec id level v =>
+    match insert sp p st.ix id v level with
+    | .error e => .error e
+    | .ok ix' => .ok { st with ix := ix' }
+  | .del id => .ok { st with tomb := if st.tomb.contains id then st.tomb else id :: st.tomb }
+  | .compact => .ok { st with tomb := [] }
+
+def erun (sp : Space V D) (p : Params) : List (EOp V) → EState V → Except Err (EState V)
+  | [], st => .ok st
+  | op :: ops, st =>
+    match estep sp p st op with
+    | .error e => .error e
+    | .ok st' => erun sp p ops st'
+
 end Nervus.Hnsw
